@@ -199,7 +199,8 @@ def obligations(tier):
                               bounds='amino-acid micro-structure %s under a symbolic grid translation t in [0,2.509] along y' % name,
                               claim_doc='every pKa and determinant identical between default and --protonate-all (any shift) and --keep-protons on the program\'s own hydrogens (same frame; within 0.01 in a shifted frame)',
                               max_paths=5000, wall_s=170 if tier == 'quick' else 1200))
-    for name in (['complex_MTX', 'complex_ZN', 'lig_KNI'] if tier == 'quick' else ['complex_MTX', 'complex_ZN', 'lig_KNI', 'lig_MTX', 'lig_MTX_B']):
+    # ('complex_ZN%HG': the zinc replaced by another configured ion whose symbol starts like a lighter element)
+    for name in (['complex_MTX', 'complex_ZN', 'complex_ZN%HG', 'lig_KNI'] if tier == 'quick' else ['complex_MTX', 'complex_ZN', 'complex_ZN%HG', 'complex_ZN%CA', 'complex_ZN%NA', 'complex_ZN%CU', 'lig_KNI', 'lig_MTX', 'lig_MTX_B']):
         obs.append(Obligation('O3-protonate-all[%s]' % name, mk_option_equivalence(name, amino_acids_only=False),
                               code=['propka/hydrogens.py:setup_bonding_and_protonation', 'propka/protonate.py:Protonate.protonate', 'propka/protonate.py:Protonate.set_charge',
                                     'propka/group.py:is_ligand_group_by_groups', 'propka/ligand.py:assign_sybyl_type', 'propka/run.py:single (whole pipeline)'],
